@@ -270,6 +270,10 @@ func (wr *strictResponseWrapper) Header() http.Header {
 }
 
 func (wr *strictResponseWrapper) flushBodyContents() error {
+	if !wr.headerWritten {
+		// the handler wrote nothing: there is no status to forward (net/http answers 200 by itself)
+		return nil
+	}
 	wr.w.WriteHeader(wr.status)
 	_, err := wr.w.Write(wr.body.Bytes())
 	return err
